@@ -397,6 +397,83 @@ def gaussian_constructor_instance():
                     bounded_n=1, frame=False, fixed_seed=True)
 
 
+def hard_start_tying_bounded_instance():
+    """Hard one-hot starts of every element type (bool / small integers / single precision: the output of label maps) under every
+    weight-tying option, through the weight update itself and through the trainers that hand the start over as it is."""
+    from pb_bss.distribution import mixture_model_utils as mmu
+    from pb_bss.distribution import CACGMMTrainer, CWMMTrainer, GMMTrainer, VMFMMTrainer
+
+    def make(B):
+        return {'K': B.choose('K', [2, 3, 4]), 'dt': B.choose('dt', ['bool', 'int8', 'int64', 'uint8', 'float32', 'float64']),
+                'wca': B.choose('wca', [-1, -2, (-1,), (-2,), (-2, -1), 1, 0]), 'trainer': B.choose('trainer', ['fn', 'fn', 'gmm', 'vmfmm', 'cwmm', 'cacgmm']),
+                'its': B.choose('its', [1, 2, 3]), 'seed': B.choose('seed', list(range(2000))), 'd': B.given('d', np.zeros(1))}
+
+    def call(inp):
+        rng = np.random.RandomState(inp['seed'])
+        K, N, D = inp['K'], 40, 3
+        lab = np.arange(N) % K
+        rng.shuffle(lab)
+        onehot = (lab[None, :] == np.arange(K)[:, None]).astype(inp['dt'])
+        wca = inp['wca']
+        wca = tuple(wca) if isinstance(wca, (list, tuple)) else wca
+        res = {'K': K, 'which': inp['trainer']}
+        centres = rng.normal(size=(K, D)) * 4
+        x = centres[lab] + rng.normal(size=(N, D)) * 0.3
+        if inp['trainer'] == 'fn':
+            res['weight'] = np.asarray(mmu.estimate_mixture_weight(onehot, weight_constant_axis=wca))
+            sal = rng.uniform(0.5, 2.0, size=N)
+            res['weight_sal'] = np.asarray(mmu.estimate_mixture_weight(onehot, saliency=sal, weight_constant_axis=wca))
+            return res
+        if wca in (0, 1):
+            wca = wca - 2
+        try:
+            if inp['trainer'] == 'gmm':
+                m = GMMTrainer().fit(x, initialization=onehot, iterations=inp['its'], weight_constant_axis=wca, covariance_type='diagonal')
+            elif inp['trainer'] == 'vmfmm':
+                m = VMFMMTrainer().fit(x, initialization=onehot, iterations=inp['its'], weight_constant_axis=wca)
+            elif inp['trainer'] == 'cwmm':
+                z = x + 1j * rng.normal(size=(N, D)) * 0.3
+                m = CWMMTrainer().fit(z, initialization=onehot, iterations=inp['its'], weight_constant_axis=wca)
+            else:
+                z = x + 1j * rng.normal(size=(N, D)) * 0.3
+                m = CACGMMTrainer().fit(z, initialization=onehot, iterations=inp['its'], weight_constant_axis=wca)
+        except (ValueError, np.linalg.LinAlgError, AssertionError) as e:
+            res['raised'] = repr(e)[:200]
+            return res
+        res['weight'] = np.asarray(m.weight)
+        params = []
+        for obj in (m, getattr(m, 'gaussian', None), getattr(m, 'vmf', None), getattr(m, 'complex_watson', None), getattr(m, 'cacg', None)):
+            if obj is None:
+                continue
+            for f_ in getattr(obj, '__dataclass_fields__', {}):
+                v = getattr(obj, f_, None)
+                if isinstance(v, np.ndarray) and v.dtype.kind in 'fc':
+                    params.append(bool(np.all(np.isfinite(v))))
+        res['finite'] = all(params)
+        return res
+
+    def ensures(sp, inp, out):
+        if 'raised' in out:
+            yield 'explicit-exception', True
+            return
+        K = out['K']
+        for key in ('weight', 'weight_sal'):
+            if key not in out:
+                continue
+            w = out[key]
+            yield key + '-floating-point', bool(w.dtype.kind == 'f')
+            yield key + '-non-negative-finite', bool(np.all(np.isfinite(w)) and np.all(w >= 0))
+            kax = w.ndim - 2
+            # (a weight tied over the class axis is stored once and broadcast over the K classes)
+            tot = np.sum(w.astype(float), axis=kax) * (K if w.shape[kax] == 1 and K > 1 else 1)
+            yield key + '-sums-to-one-over-classes[%s,wca=%s]' % (inp['dt'], inp['wca']), bool(w.ndim >= 2 and w.shape[kax] in (1, K) and np.allclose(tot, 1.0, atol=1e-6))
+        if 'finite' in out:
+            yield 'fitted-parameters-finite', out['finite']
+
+    return Instance('C09', DN + 'mixture_model_utils:estimate_mixture_weight', 'bounded-hard-starts-of-any-type-under-every-tying-option', make, call, ensures,
+                    mode='bounded', bounded_n=150, frame=False)
+
+
 def degenerate_bounded_instance():
     """Fits on degenerate data: finite parameters inside their domain (bounded stand-in)."""
     from pb_bss.distribution import (CACGMMTrainer, CWMMTrainer, GMMTrainer, VMFMMTrainer, ComplexAngularCentralGaussianTrainer,
@@ -628,4 +705,4 @@ _instances_before_simplex = instances
 
 def instances(tier):       # noqa: F811
     from .common import simplex_lemma_instances
-    return _instances_before_simplex(tier) + simplex_lemma_instances('C09')
+    return _instances_before_simplex(tier) + [hard_start_tying_bounded_instance()] + simplex_lemma_instances('C09')
